@@ -5,7 +5,7 @@ from checklib import PropCheck
 from props.common import dump_of
 
 GLOBAL_Q = ['n_leaves', 'get_leaf_names', 'is_binary', 'is_rooted', 'unique_tips', 'height', 'diameter', 'length', 'cherries', 'colless', 'sackin',
-            'partitions', 'dm', 'dmr', 'search tip', 'search unnamed', 'search all', 'to_newick', 'to_nexus', 'get_leaves']
+            'colless_yule', 'colless_pda', 'sackin_yule', 'sackin_pda', 'partitions', 'dm', 'dmr', 'search tip', 'search unnamed', 'search all', 'to_newick', 'to_nexus', 'get_leaves']
 ROOT_Q = ['preorder', 'postorder', 'levelorder', 'inorder', 'subtree', 'descendants', 'subtree_leaves']
 
 def keys_of(nodes):
@@ -51,6 +51,9 @@ class Check(PropCheck):
                     sel = 'removed'          # no removed slot yet: the selector yields an id far out of range
                     ops += ['pick %s %d' % (sel, big), rng.choice(['add_child $0 %s %s -' % (vf.enc_str('ghost%d_%d' % (j, s)), vf.enc_len(0.5)), 'prune $0',
                                                                   'merge $0 $0 - - - -'])]
+                if rng.random() < 0.06:
+                    # merging a live node with itself is refused and must change nothing
+                    ops += ['pick nonroot %d' % big, 'merge $0 $0 - - - -']
                 if r < 0.3:
                     ops += ['pick nonroot %d' % big, 'prune $0']
                 elif r < 0.45:
